@@ -84,4 +84,16 @@ CLAIMS["C09"] = proof(
     "C09_mutex_free / C09_no_error — the inner mutex is free with no queued listener between polls; no unreachable branch, no fuel exhaustion. C09_spec_sane — the abstract barrier never has more current-generation waits outstanding than arrivals. "
     "Schedule half (threads, wait_blocking) not proved: the inner mutex being contended mid-poll is outside poll-granular histories; pinned by Tie_Barrier. " + CORR, NOTE)
 
+CLAIMS["C04"] = proof(
+    "History half proved for every history of fewer than 2^64-2 operations (wait / get_or_init / get_or_try_init / set futures polled with any wakers in any order, closures' futures resolved Ok / Err / panic at any time or never, "
+    "cancellation at every point, get, take, drop): C04_once — initialised at most once since the last take and exactly once iff Initialized; at most one initialiser closure running, and one iff the state is Initializing (none is started "
+    "once initialised); the slot holds a value iff Initialized; the state word is always one of the three states. C04_value_visible — every value any operation returns (wait, get_or_init, get_or_try_init, Ok of set, get, take) is the value "
+    "stored by the one successful initialiser, and the cell is (for take: was) Initialized. C04_no_error — no debug_assert / unreachable branch, no spinning. Not proved (monitored on the implementation + correspondence): payload drop count "
+    "('dropped exactly once'), set's Err(value) hand-back as a theorem; blocking forms and thread interleavings (pinned by Tie_OnceCell, no-failing-input-found). " + CORR, NOTE)
+CLAIMS["C08"] = proof(
+    "History half proved for every history (alphabet as C04): C08_waiters_finish — Initialized and every woken task re-polled => no wait / get_or_init / get_or_try_init / set is pending (both events were notified with notify_additional(MAX), "
+    "each waiter woken through its latest waker completes at its next poll). C08_hand_over — the cell is Initializing only while some future is running its closure (after Err, panic or cancellation it is Uninitialized again, never stuck); "
+    "Uninitialized at rest => no caller is still queued on active_initializers (the guard's notify(1) woke one; the notification is forwarded if that caller is cancelled; at its poll it runs its own closure). From the ownership invariant of both "
+    "events (C08_invariant). 'Error/panic reported only to the caller whose closure produced it' is by construction of the model and compared with the implementation by the correspondence. Blocking forms / threads: not proved. " + CORR, NOTE)
+
 NOT_APPLICABLE = []
